@@ -234,3 +234,23 @@ def check_C04(res, replay):
                     "recorded optimiser histories (as C05) + real optimisations of library and random molecules (as built, distorted 0.02-0.25 A, compressed/stretched "
                     "0.8-1.25x, united with a second fragment at 2.5-6 A) with UFF and RB inside the property's domain (min distance >= 0.5 A, E0 < 1e4 kcal/mol per atom): "
                     "energy before/after with the same object, snapshots of atoms, connectivity and terms before/after; non-trivial = the optimiser moved the structure")
+
+
+# ---------------------------------------------------------------------------------------------------- C11
+
+BUILD_AUDIT = TOPO_AUDIT + ["OptRs.Model.BuildUFF"]
+
+
+def check_C11(res, replay):
+    res.trusted = TB_COMMON + ["hand model OptRs.Model.buildUFF/buildRB of UFF::new / RB::new; typing rules, derived per-type quantities and the inversion lookup in the driver",
+                               "hooks verif_terms / verif_atom_types export the private term lists and assigned types",
+                               "axioms audited: subset of {propext, Classical.choice, Quot.sound}"]
+    res.assumptions = ["theorems are for ANY numeric layer/typing; 'each once' combines them with C10 (angles/dihedrals/impropers/pairs are the bond graph's, each once)",
+                       "'centre whose type has tabulated inversion constants' is decided on the assigned UFF atom type",
+                       "torsions within 0.1 rad of a linear flanking angle are dropped at construction (the statement's 'at most one')"]
+    return standard(res, ["tables", "terms", "uff"], ["OptRs.Props.C11", "OptRs.Props.C10"], [("build", [], "build")], "proof",
+                    "lake build OptRs.Props.C11 OptRs.Props.C10 + #print axioms audit",
+                    "library molecules; every element as isolated atom; a third of the elements (all in thorough) as centres with H in nine coordination geometries; random "
+                    "molecules (chains, rings incl. three-membered, clusters of arbitrary elements, metals) as built and distorted: assigned types and the sorted term list "
+                    "(kind, atoms as stored, parameter bit patterns) of UFF and RB compared with the model; the property's multiset predicates evaluated on the real term lists",
+                    extra_audit=BUILD_AUDIT)
